@@ -93,6 +93,8 @@ def _transform(pt: str, period):
         return period.last_month
     if pt == "last_year":
         return period.last_year
+    if pt.startswith("fx:"):
+        return parse_period_token(pt[3:])
     _, n, u = pt.split(":")
     return period.offset(int(n), DateUnit(u))
 
@@ -406,8 +408,17 @@ def compatible(target_unit: str, caller_unit: str) -> list:
     """(transform, add) pairs producing a valid request for a variable of `target_unit` from a
     formula running for a period of `caller_unit`"""
     if caller_unit == "eternity":
-        return [("same", False)] if target_unit == "eternity" else []
+        # an eternal variable's formula must not depend on the period it happens to be requested for:
+        # it reads other eternal variables, or dated variables at FIXED periods
+        if target_unit == "eternity":
+            return [("same", False)]
+        out = [("fx:" + tok, False) for tok in POOL.get(target_unit, [])[:3]]
+        if target_unit == "month":
+            out.append(("fx:year/2017,1,1/1", True))
+        return out
     out = []
+    if target_unit in ("month", "year", "day"):
+        out.append(("fx:" + POOL[target_unit][0], False))
     if target_unit == "eternity":
         out += [("same", False), ("this_year", False)]
     if target_unit == "year":
@@ -524,20 +535,34 @@ def gen_vars(rng, n, spiral=False, cycle=False, fault_ids=None, bad_rate=0.0, un
                 v.end = None
         v.neutralized = rng.random() < 0.06 and not spiral
     if spiral:
-        # force cross-period self-dependencies: only month variables, reads at last_month / offsets
+        # force cross-period self-dependencies: month variables reading each other at last_month / offsets,
+        # and (40%) one eternal variable E = c + k * X@<fixed month> that month variables read back
         for i, v in enumerate(vars_):
             v.unit = "month"
             v.end = None
+        eternal_idx = rng.randrange(len(vars_)) if len(vars_) >= 2 and rng.random() < 0.4 else None
+        if eternal_idx is not None:
+            vars_[eternal_idx].unit = "eternity"
         for i, v in enumerate(vars_):
             v.formulas = []
             terms = []
-            for _ in range(rng.randint(1, 3)):
+            if v.unit == "eternity":
+                js = [j for j in range(len(vars_)) if vars_[j].entity == v.entity and vars_[j].unit == "month"]
+                for j in rng.sample(js, min(len(js), rng.randint(1, 2))):
+                    terms.append(("v", j, "fx:" + rng.choice(MONTHS[:3]), False))
+            else:
+              for _ in range(rng.randint(1, 3)):
+                if eternal_idx is not None and vars_[eternal_idx].entity == v.entity and rng.random() < 0.35:
+                    terms.append(("v", eternal_idx, "same", False))
+                    continue
                 if i > 0 and rng.random() < 0.5:
                     j = rng.randrange(0, i)
-                    if vars_[j].entity == v.entity:
+                    if vars_[j].entity == v.entity and vars_[j].unit == "month":
                         terms.append(("v", j, "same", False))
                         continue
-                js = [j for j in range(len(vars_)) if vars_[j].entity == v.entity]
+                js = [j for j in range(len(vars_)) if vars_[j].entity == v.entity and vars_[j].unit == "month"]
+                if not js:
+                    continue
                 j = rng.choice(js)
                 terms.append(("v", j, rng.choice(["last_month", "last_month", "off:-2:month"]), False))
             e = ("c", rng.randint(1, 7))
